@@ -50,9 +50,11 @@ CONSTANTS Sizes,      \* set of 10 n + m: velocity / pressure dimension (configu
           MaxHist
 
 VARIABLES n, m, PB, PD, pal, typ, flav, fsel, auto, fail,     \* the chosen input
+          mats,                                                 \* mats[c]: the matrices / inner solver maps of value set c
+          tab,                                                  \* tab[c][k]: the operator with the values c applied to test vector k
           lifeU, lifeS, cur, atA, atS, hist
-vars == <<n, m, PB, PD, pal, typ, flav, fsel, auto, fail, lifeU, lifeS, cur, atA, atS, hist>>
-input == <<n, m, PB, PD, pal, typ, flav, fsel, auto, fail>>
+vars == <<n, m, PB, PD, pal, typ, flav, fsel, auto, fail, mats, tab, lifeU, lifeS, cur, atA, atS, hist>>
+input == <<n, m, PB, PD, pal, typ, flav, fsel, auto, fail, mats, tab>>
 
 \* ---- inputs -------------------------------------------------------------------------------------------
 NextPal(pl) == (pl % 3) + 1
@@ -142,11 +144,10 @@ UpToFail(cs, fl) == IF cs = <<>> THEN <<>> ELSE IF Head(cs) = fl THEN <<Head(cs)
 Mats(c) == [ma |-> MapA(flav, n, PalOf(c)), ms |-> MapS(flav, n, m, PB, PD, PalOf(c)), bm |-> BMat(n, m, PB, PalOf(c)), dm |-> DMat(n, m, PD, PalOf(c))]
 \* operator with the values a (SolA), s (SolS), bd (B, D) taken from M[a], M[s], M[bd]
 OpWith(M, a, s, bd, f) == UzOp(typ, fsel, n, m, M[a].ma, M[s].ms, M[bd].bm, M[bd].dm, f)
-OpAt(a, s, bd, f) == OpWith(<<Mats(1), Mats(2)>>, a, s, bd, f)
 \* results allowed when SolA holds the values a, SolS the values s and the matrices the values cur: B and D are read at apply;
 \* while something is stale every mixture of old and new inner solvers is accepted, and the all-old operator
-Allowed(M, a, s, f) ==
-  IF a = cur /\ s = cur THEN {OpWith(M, cur, cur, cur, f)}
+Allowed(M, a, s, kk, f) ==
+  IF a = cur /\ s = cur THEN {tab[cur][kk]}
   ELSE {OpWith(M, x, y, cur, f) : x \in {a, cur}, y \in {s, cur}} \cup {OpWith(M, a, s, a, f)}
 
 \* the input lies in the exact domain: sums and products of dyadic values are dyadic, so only the quotients matter - the
@@ -165,6 +166,8 @@ Init ==
   /\ (fail # "none" => flav = "mock")
   /\ (~auto => flav = "mock")
   /\ ExactInput(n, m, PB, PD, pal, flav)
+  /\ mats = <<Mats(1), Mats(2)>>
+  /\ tab = LET TT == Tests(n + m) IN Vec(2, LAMBDA c : Vec(n + m + 2, LAMBDA k : OpWith(mats, c, c, c, TT[k])))
   /\ lifeU = "created" /\ lifeS = "created" /\ cur = 1 /\ atA = 0 /\ atS = 0 /\ hist = <<>>
 
 CanonAuto == <<"IS", "IN", "AP", "UP", "AP", "IN", "AP", "AP", "DN", "UP", "IN", "AP", "DN", "DS">>
@@ -201,7 +204,7 @@ SDoneSymbolic == ~auto /\ Enabled("sDS") /\ lifeS = "symbolic" /\ lifeS' = "crea
                  /\ UNCHANGED <<input, lifeU, cur, atA, atS>>
 \* one apply() per test vector; exp[k] = set of allowed results (empty when an inner solver fails: status aborted)
 Apply == /\ Enabled("AP") /\ lifeU = "numeric" /\ lifeS = "numeric"
-         /\ Rec("AP", IF fail = "none" THEN LET M == <<Mats(1), Mats(2)>>  TT == Tests(n + m) IN Vec(n + m + 2, LAMBDA k : Allowed(M, atA, atS, TT[k])) ELSE <<>>,
+         /\ Rec("AP", IF fail = "none" THEN LET TT == Tests(n + m) IN Vec(n + m + 2, LAMBDA k : Allowed(mats, atA, atS, k, TT[k])) ELSE <<>>,
                 <<>>, IF fail = "none" THEN CallsOf(typ) ELSE UpToFail(CallsOf(typ), fail))
          /\ UNCHANGED <<input, lifeU, lifeS, cur, atA, atS>>
 UpdateValues == Enabled("UP") /\ cur' = 3 - cur /\ Rec("UP", <<>>, <<>>, <<>>) /\ UNCHANGED <<input, lifeU, lifeS, atA, atS>>
@@ -212,11 +215,10 @@ Spec == Init /\ [][Next]_vars
 
 \* ---- Part 3: laws of the definitions (evaluated on every generated input) -------------------------------------------
 T == Tests(n + m)
-Linearity == hist = <<>> => LET M == <<Mats(1), Mats(2)>> IN \A c \in {1, 2} :
-   OpWith(M, c, c, c, T[n + m + 2]) = RVSub(RVScale(D(2), OpWith(M, c, c, c, T[n + m + 1])), OpWith(M, c, c, c, T[1]))
+Linearity == hist = <<>> => \A c \in {1, 2} : tab[c][n + m + 2] = RVSub(RVScale(D(2), tab[c][n + m + 1]), tab[c][1])
 \* the correction of a filtered velocity dof is zero; a mean-filtered pressure correction has dual mean zero
-FilterLaw == hist = <<>> /\ fsel # "none" => LET M == <<Mats(1), Mats(2)>> IN \A c \in {1, 2}, k \in 1..(n + m + 2) :
-   LET x == OpWith(M, c, c, 3 - c, T[k]) IN
+FilterLaw == hist = <<>> /\ fsel # "none" => \A c \in {1, 2}, k \in 1..(n + m + 2) :
+   LET x == tab[c][k] IN
      /\ \A i \in FVOf(fsel, n) : x[i] = Zero
      /\ (FPKind(fsel) = "mean" => DDot(SubVec(x, n + 1, m), MeanD(m)) = Zero)
      /\ (FPKind(fsel) = "unit" => x[n + m] = Zero)
@@ -228,22 +230,22 @@ BlockSys(ty, A, S, bm, dm, ma) ==        \* (n + m) x (n + m)
        ELSE IF i <= n THEN (IF ty \in {"upper", "full"} THEN bm[i][j - n] ELSE Zero)
        ELSE IF j <= n THEN (IF ty \in {"lower", "full"} THEN dm[i - n][j] ELSE Zero)
        ELSE S2[i - n][j - n])
-BlockLaw == hist = <<>> /\ flav \in {"inv", "schur"} => \A c \in {1, 2}, k \in 1..(n + m + 2) :
+BlockLaw == hist = <<>> /\ flav \in {"inv", "schur"} => LET M == mats IN \A c \in {1, 2} :
    LET pl == PalOf(c)
-       K == BlockSys(typ, InvMat(n, pl), SMat(flav, n, m, PB, PD, pl), BMat(n, m, PB, pl), DMat(n, m, PD, pl), MapA(flav, n, pl))
-   IN /\ InverseLaw(n, InvMat(n, pl), MapA(flav, n, pl)) /\ InverseLaw(m, SMat(flav, n, m, PB, PD, pl), MapS(flav, n, m, PB, PD, pl))
-      /\ RMatVec(n + m, n + m, K, OpAt(c, c, c, T[k])) = T[k]
+       K == BlockSys(typ, InvMat(n, pl), SMat(flav, n, m, PB, PD, pl), M[c].bm, M[c].dm, M[c].ma)
+   IN /\ InverseLaw(n, InvMat(n, pl), M[c].ma) /\ InverseLaw(m, SMat(flav, n, m, PB, PD, pl), M[c].ms)
+      /\ \A k \in 1..(n + m + 2) : RMatVec(n + m, n + m, K, tab[c][k]) = T[k]
 \* full Uzawa with the exact Schur complement inverts the saddle-point matrix [A B; D 0]
 Saddle(A, bm, dm) == MatOf(n + m, n + m, LAMBDA i, j :
        IF i <= n /\ j <= n THEN A[i][j] ELSE IF i <= n THEN bm[i][j - n] ELSE IF j <= n THEN dm[i - n][j] ELSE Zero)
-FullIsSaddleInverse == hist = <<>> /\ flav = "schur" /\ typ = "full" => \A c \in {1, 2}, k \in 1..(n + m + 2) :
-   LET pl == PalOf(c) IN RMatVec(n + m, n + m, Saddle(InvMat(n, pl), BMat(n, m, PB, pl), DMat(n, m, PD, pl)), OpAt(c, c, c, T[k])) = T[k]
+FullIsSaddleInverse == hist = <<>> /\ flav = "schur" /\ typ = "full" => LET M == mats IN \A c \in {1, 2} :
+   LET K == Saddle(InvMat(n, PalOf(c)), M[c].bm, M[c].dm) IN \A k \in 1..(n + m + 2) : RMatVec(n + m, n + m, K, tab[c][k]) = T[k]
 \* the literal formula of the class documentation for `full`: [I 0; -D A^-1 I][A B; 0 S] = [A B; -D  S - D A^-1 B]  (see NOTE above)
 DocumentedFullSystem(A, S, bm, dm, ma) ==
   MatOf(n + m, n + m, LAMBDA i, j :
        IF i <= n /\ j <= n THEN A[i][j] ELSE IF i <= n THEN bm[i][j - n] ELSE IF j <= n THEN Neg(dm[i - n][j])
        ELSE Sub(S[i - n][j - n], RMatMul(m, n, m, dm, RMatMul(n, n, m, ma, bm))[i - n][j - n]))
-ResultsExact == hist = <<>> => LET M == <<Mats(1), Mats(2)>> IN \A x \in {1, 2}, k \in 1..(n + m + 2) : VecExact(OpWith(M, x, 3 - x, x, T[k]))
+ResultsExact == hist = <<>> => \A x \in {1, 2}, k \in 1..(n + m + 2) : VecExact(tab[x][k])
 LifeOK == /\ lifeU \in {"created", "symbolic", "numeric"} /\ lifeS \in {"created", "symbolic", "numeric"}
           /\ (lifeU = "numeric" <=> atA # 0) /\ (lifeS = "numeric" <=> atS # 0)
           /\ (auto => lifeS = lifeU /\ atS = atA)
@@ -256,12 +258,10 @@ Emit == Final =>
                  FV |-> SetSeq(FVOf(fsel, n)), fp |-> FPKind(fsel), mp |-> MeanP(m), md |-> MeanD(m),
                  patB |-> MatOf(n, m, LAMBDA i, q : IF <<i, q>> \in PB THEN 1 ELSE 0),
                  patD |-> MatOf(m, n, LAMBDA q, j : IF <<q, j>> \in PD THEN 1 ELSE 0),
-                 B1 |-> BMat(n, m, PB, PalOf(1)), B2 |-> BMat(n, m, PB, PalOf(2)),
-                 D1 |-> DMat(n, m, PD, PalOf(1)), D2 |-> DMat(n, m, PD, PalOf(2)),
+                 B1 |-> mats[1].bm, B2 |-> mats[2].bm, D1 |-> mats[1].dm, D2 |-> mats[2].dm,
                  A1 |-> AMat(flav, n, PalOf(1)), A2 |-> AMat(flav, n, PalOf(2)),
                  w |-> JacOmega(n),
-                 MA1 |-> MapA(flav, n, PalOf(1)), MA2 |-> MapA(flav, n, PalOf(2)),
-                 MS1 |-> MapS(flav, n, m, PB, PD, PalOf(1)), MS2 |-> MapS(flav, n, m, PB, PD, PalOf(2)),
+                 MA1 |-> mats[1].ma, MA2 |-> mats[2].ma, MS1 |-> mats[1].ms, MS2 |-> mats[2].ms,
                  tests |-> T,
                  steps |-> [s \in 1..Len(hist) |-> [op |-> hist[s].op, log |-> hist[s].log, calls |-> hist[s].calls,
                              exp |-> [k \in 1..Len(hist[s].exp) |-> SetToSeq(hist[s].exp[k])]]]]))
